@@ -1,6 +1,9 @@
 package vh
 
-import "fmt"
+import (
+	"fmt"
+	"strings"
+)
 
 const bs = 32768
 
@@ -171,6 +174,15 @@ func GenFileScript(r *Rng, hist map[string]int) []string {
 		if !staging && r.Chance(1, 5) {
 			staging = true
 		}
+		if !staging && r.Chance(1, 12) {
+			// a write the back-end refuses, then the history goes on
+			out = append(out, fmt.Sprintf("F putfail %d %s %s %d", typ, ktok, vtok, batch))
+			hist["op_put_refused_by_backend"]++
+		}
+		if !staging && io == 1 && r.Chance(1, 10) {
+			out = append(out, "F resetsize")
+			hist["op_mmap_reset_file_size"]++
+		}
 		if staging {
 			out = append(out, fmt.Sprintf("F stage %d %s %s %d", typ, ktok, vtok, batch))
 			hist["op_stage"]++
@@ -207,6 +219,13 @@ func GenFileScript(r *Rng, hist map[string]int) []string {
 		for i, l := range out {
 			if l == "F scan" || l == "F bytes" {
 				continue
+			}
+			// standard I/O only: msync / ftruncate of a mapping of 4.5 GiB and more cost seconds of kernel time each
+			if i == 0 {
+				l = fmt.Sprintf("F new %d 0", fid)
+			}
+			if strings.HasPrefix(l, "F reopen") {
+				l = "F reopen 0"
 			}
 			o2 = append(o2, l)
 			if i == 0 {
